@@ -28,6 +28,7 @@ HARNESS_FLAGS = {
 COMMON_ASSUME = [
     'clang/gcc, AddressSanitizer/UBSan and rapidcheck/libFuzzer behave as documented',
     'libutf8proc 2.8 (Unicode 14) is a correct NFC/NFKD implementation (cross-checked against Python unicodedata on the word-list alphabet at setup)',
+    'injected stand-ins are conforming but not forgiving: the normalisers own and clear the whole polyseed_str output before reading the input and return the byte length written; the KDF clears the key buffer before reading password and salt; the allocator hands the most recently freed block of the same size out again (poisoned under ASan while free); wiping really wipes. Changes that only misbehave with dependencies outside this contract (a normaliser returning something other than the length written, a wipe function that does not wipe) are not reported (DESIGN 9.11)',
     'x86-64 little-endian ABI only; big-endian / 32-bit targets cannot be built in this sandbox',
     'sampling: absence of a violation on the generated cases is not a proof, except for sub-domains listed under coverage.enumerated',
 ]
@@ -83,11 +84,11 @@ prop('C05', src='props/c05_coin.cpp',
 
 prop('C06', src='props/c06_storage.cpp',
      plan={'quick': [{'variant': 'asan', 'workers': 16}], 'thorough': [{'variant': 'asan', 'workers': 16}, {'variant': 'rel', 'workers': 16}]},
-     rule='(1) exhaustive field sweeps around 3 valid images: each header byte x 255 values, bytes 8-9 x 65536 (old and recomputed check value), padding bits x 8 masks, byte 29 x 256, bytes 30-31 x 65536, every secret bit flip (old and recomputed check); '
+     rule='(1) exhaustive field sweeps around 3 valid images: each header byte x 255 values, bytes 8-9 x 65536 (old and recomputed check value), padding bits x 8 masks, byte 29 x 256, bytes 30-31 x 65536, every secret bit flip (old and recomputed check), and the same bytes in another order (magic / each field / whole image reversed in groups of 2, 4, 8, 16, 32 bytes, magic rotated, every transposition of two magic bytes, lower-case magic); '
           '(2) rapidcheck buffers: 1-6 simultaneous field mutations (with/without recomputed check), valid images under random masks, random buffers with a valid header/frame, uniform random; (3) seed round trips. '
           'Oracle: load status equals the model verdict with precedence FORMAT > CHECKSUM > UNSUPPORTED; OK implies store(load(buf)) == buf and equal getters; store bytes equal the model image; no block left allocated on failure; input unmodified. '
           'Non-trivial = buffer passes the header test; distinct = fingerprint of (buffer, mask).',
-     required_classes={'any': ['verdict:OK', 'verdict:CHECKSUM', 'verdict:UNSUPPORTED', 'verdict:FORMAT', 'gen:padding:new-check', 'gen:bytes8-9:new-check', 'seed-roundtrip']},
+     required_classes={'any': ['verdict:OK', 'verdict:CHECKSUM', 'verdict:UNSUPPORTED', 'verdict:FORMAT', 'gen:padding:new-check', 'gen:bytes8-9:new-check', 'gen:reordered:magic', 'gen:reordered:whole-image', 'seed-roundtrip']},
      technique='property-based testing against a reference model of the 32-byte image (rapidcheck structured buffer generator) + exhaustive field-wise enumeration',
      level_text='Acceptance is decided against an independent model of the image for every enumerated/generated buffer; non-secret fields are swept exhaustively around valid images, the 2^256 buffer space is sampled. Exploration. Little-endian host only.')
 
@@ -137,11 +138,11 @@ prop('C12', src='props/c12_crypt.cpp',
 
 prop('C08', src='props/c08_prefix.cpp',
      plan={'quick': [{'variant': 'asan', 'workers': 16}], 'thorough': [{'variant': 'asan', 'workers': 16}, {'variant': 'rel', 'workers': 16}]},
-     rule='(i) exhaustive per word: every registered language x every word of the library\'s own index table (every 8th in the two Chinese lists in quick) x every prefix length 1..len x every subset of combining marks kept x NFD/NFC form, plus negative variants (prefix or word + a letter it does not continue with; word, 4-letter prefix with an extra combining mark inserted or appended, in NFD and NFC; in the languages that are not accent-blind also word/prefix with a foreign non-ASCII character), each placed at word 2 of a valid library phrase through the coin XOR; '
+     rule='(i) exhaustive per word: every registered language x every word of the library\'s own index table (every 8th in the two Chinese lists in quick) x every prefix length 1..len x every subset of combining marks kept x NFD/NFC form, plus negative variants (prefix or word + a letter it does not continue with; word, 4-letter prefix with an extra combining mark inserted or appended, in NFD and NFC; in the languages that are not accent-blind also word/prefix with a foreign non-ASCII character; in the six abbreviating languages overlong tokens - a 0/1/3/4/5-letter or full prefix of the word followed by filler up to 255-261 bytes, and in Spanish/French the word or its abbreviation followed by 252-260 bytes of combining accents), each placed at word 2 of a valid library phrase through the coin XOR; '
           '(ii) rapidcheck phrases with all 16 tokens independently varied in permitted ways (prefix >= 4 letters, accents kept per subset, NFC/NFD, ideographic separator for Japanese). '
           'Oracle = index-free reference matcher from the property text: A = {w : t equals w, or t is a prefix of w with >= 4 letters} (letters compared accent-blind in es/fr, exact match in ja/ko/zh); A = {own word} => OK and same seed, A empty => LANG, A = {other word} => same outcome as that word typed in full. '
           'Non-trivial = token differs from the full NFKD word; distinct = (language, token, word).',
-     required_classes={'any': ['rule:same-word', 'rule:no-word', 'rule:other-word', 'class:prefix>=4-last-letter-keeps-accent', 'class:prefix>=4', 'class:prefix<4', 'class:negative-suffix', 'class:composed-form-differs', 'class:decorated-with-combining-mark', 'class:decorated-with-foreign-character']},
+     required_classes={'any': ['rule:same-word', 'rule:no-word', 'rule:other-word', 'class:prefix>=4-last-letter-keeps-accent', 'class:prefix>=4', 'class:prefix<4', 'class:negative-suffix', 'class:composed-form-differs', 'class:decorated-with-combining-mark', 'class:decorated-with-foreign-character', 'class:overlong-token(~256 bytes)', 'class:overlong-token(accents)']},
      technique='exhaustive enumeration of token variants per word + property-based testing of mixed phrases (rapidcheck), against an index-free reference matcher',
      level_text='Every word of every list is enumerated with all prefix lengths, accent subsets and both normalisation forms against a reference matcher written from the property text; mixtures over 16 positions are sampled. Exploration with an exhaustive single-token core.')
 
@@ -154,7 +155,7 @@ prop('C09', src='props/c09_detect.cpp', src_by_variant={'fuzz': 'fuzz/fuzz_api.c
           '(2) ambiguity builders: all 16 tokens accepted by two languages (both Chinese lists; shared 4-letter stems and words of en/es/fr/it/cs/pt), check word aimed at the first, the second or neither; (3) arbitrary Unicode, raw bytes, 13-18-word soups. '
           'libFuzzer: the same oracle in-process on byte-decoded inputs (raw string | word-level phrase description with mutations | password | 32-byte buffer), half of the workers from the committed seed corpus, half from an empty one. '
           'Oracle: with E[l] = decode_explicit(s, coin, l) and R = {l: E[l] not in {NUM_WORDS, LANG}}: decode = NUM_WORDS iff any (then every) E[l] is; LANG iff R empty; MULT_LANG iff |R| >= 2; else E[l] with that language and equal store bytes; '
-          'NUM_WORDS iff the reference tokenizer (single U+0020 after NFKD, one trailing empty token dropped) does not give 16 tokens (strings whose NFKD form fits the buffer); an empty token is a language error; with every allocation failing only would-be OK/UNSUPPORTED outcomes become MEMORY. '
+          'NUM_WORDS iff the reference tokenizer (single U+0020 after NFKD, one trailing empty token dropped) does not give 16 tokens (strings whose NFKD form fits the buffer); an empty token is a language error; with every allocation failing only would-be OK/UNSUPPORTED outcomes become MEMORY; the lang_out variable starts as a registered language chosen from the input, and when some language recognises the string decode is repeated with lang_out pre-set to each such language (same outcome required). '
           'Non-trivial = |R| >= 1 or 15-17 tokens; distinct = fingerprint of (string, coin).',
      required_classes={'any': ['R=>=2/MULT_LANG', 'R=1/OK', 'R=1/CHECKSUM', 'R=0/LANG', 'R=0/NUM_WORDS', 'R>=2 with differing checksum verdicts', 'R>=3', 'with-prelude-of-same-language-decodes', 'gen:first-words-shared-rest-second-language:valid-in-second', 'tokens:15', 'tokens:17', 'with-allocation-failure', 'gen:ambiguous:valid-in-first', 'gen:ambiguous:valid-in-second', 'mode:structured-phrase', 'mode:raw-string']},
      assumptions=FUZZ_ASSUME,
@@ -178,7 +179,7 @@ prop('C13', src='props/c13_model.cpp', engine='rapidcheck (stateful)',
            'thorough': [{'variant': 'asan-nd', 'workers': 16}, {'variant': 'asan', 'workers': 16, 'scale': 0.3}, {'variant': 'rel', 'workers': 16}]},
      rule='stateful model-based testing: sequences (length <= 60 quick / <= 200 thorough) over 14 operations on 4 slots - inject(set A|B, optional entries present or NULL), enable_features, create, load(image of a slot | wrong check | wrong header | reserved bit | padding bit | fresh seed), decode / decode_explicit (phrase just encoded from a slot: same coin, other coin, other language, abbreviated, trailing space, 17 tokens, 15 tokens, unknown word; or fixed malformed strings), crypt (6 passwords incl. composed/decomposed pair), encode, store, keygen, queries, free, free(NULL), arm allocation failure - '
           'plus exhaustive enumeration of all 66429 sequences of length <= 5 over 9 fixed-argument operations. Oracle: abstract model (enabled mask, current dependency set, slot -> (secret, birthday, features)): every status, phrase, KDF argument list and query equals the model\'s; after every step each live seed\'s store image equals the model image (canonical; other slots untouched), '
-          'allocator ledger = live slots, no call lands in the non-current dependency set; fresh blocks are garbage-filled; the writable static storage that the library objects contribute to the executable (from the linker map, incl. thread-local sections) is snapshotted around every operation: only inject and enable_features may change it, any other call may write a byte once from zero (lazy initialisation) and never again. Non-trivial = crypt followed by encode/store of that slot, or >= 2 live seeds, or a re-injection, or a failed constructor; distinct = fingerprint of the sequence.',
+          'allocator ledger = live slots, no call lands in the non-current dependency set; fresh blocks are garbage-filled; the writable static storage that the library objects contribute to the executable (from the linker map, incl. thread-local sections) is snapshotted around every operation: only inject and enable_features may change it, any other call may write a byte once from zero (lazy initialisation) and never again. The output variables of create / load / decode start as NULL, as the dangling address of the seed freed last (which the recycling allocator hands out next), as another live seed or as a non-pointer; lang_out as NULL, each registered language or a non-pointer. Non-trivial = crypt followed by encode/store of that slot, or >= 2 live seeds, or a re-injection, or a failed constructor; distinct = fingerprint of the sequence.',
      required_classes={'quick': ['seq:crypt-then-encode/store', 'seq:>=2-live-seeds', 'seq:re-injection', 'seq:failed-constructor', 'seq:allocation-failure-observed', 'decode:OK', 'decode:CHECKSUM', 'decode:MULT_LANG', 'decode_explicit:LANG', 'load:UNSUPPORTED', 'load:FORMAT', 'create:UNSUPPORTED'], 'thorough': ['seq:crypt-then-encode/store', 'seq:>=2-live-seeds', 'seq:re-injection', 'seq:failed-constructor']},
      technique='stateful model-based property testing (rapidcheck operation sequences against an abstract seed model, invariant after every step) + exhaustive enumeration of all short sequences',
      level_text='Random walks over the whole API are compared step by step with an abstract model, and every sequence of length <= 5 over a reduced alphabet is enumerated. Exploration of an unbounded history space.')
@@ -186,7 +187,7 @@ prop('C13', src='props/c13_model.cpp', engine='rapidcheck (stateful)',
 prop('C15', src='props/c15_alloc.cpp', engine='rapidcheck (stateful, fault injection)', level='fault_enumeration',
      plan={'quick': [{'variant': 'asan', 'workers': 16}, {'variant': 'asan-nd', 'workers': 16, 'scale': 0.3}], 'thorough': [{'variant': 'asan', 'workers': 16}, {'variant': 'asan-nd', 'workers': 16}]},
      rule='fault enumeration: (1) cell scripts - every (entry point x outcome class) cell: create {ok, unsupported}, load {ok, format, checksum, unsupported}, decode and decode_explicit {ok, num-words, lang, mult-lang, checksum, unsupported} - each without a fault and with the 1st, 2nd or 3rd allocation request failing, x 40 language/coin variants, followed by free(NULL), a further create and an encode (subsequent calls behave normally); '
-          '(2) rapidcheck operation sequences (create/load/decode/decode_explicit/crypt/encode/free/free(NULL)/enable_features/arm-failure) with a failure mask armed before about one call in six. Allocator: blocks come back filled with non-zero garbage; the k-th request after arming fails per bit mask. '
+          '(2) rapidcheck operation sequences (create/load/decode/decode_explicit/crypt/encode/free/free(NULL)/enable_features/arm-failure) with a failure mask armed before about one call in six. Allocator: blocks come back filled with non-zero garbage; the k-th request after arming fails per bit mask; the most recently freed block of the same size is handed out again (poisoned under ASan while free). The output variables of create / load / decode start as NULL, as the dangling address of the seed freed last (which the recycling allocator hands out next), as another live seed or as a non-pointer; lang_out as NULL, each registered language or a non-pointer. '
           'Oracle (ledger invariant after every call): no unknown or repeated pointer reaches free; free(NULL) calls no dependency; blocks allocated = seeds live (a failed call leaves none, a successful one exactly one, released exactly once by polyseed_free with the block wiped); if the allocator was asked and returned NULL the status is MEMORY and no seed is produced; following calls work. '
           'Non-trivial = a call in which the allocator was asked while a failure was armed, or which exits through unsupported/format/checksum; distinct = fingerprint of the sequence.',
      required_classes={'any': ['cell:create/OK/armed', 'cell:create/OK/unarmed', 'cell:create/UNSUPPORTED/armed', 'cell:create/UNSUPPORTED/unarmed', 'cell:load/OK/armed', 'cell:load/OK/unarmed', 'cell:load/FORMAT/armed', 'cell:load/FORMAT/unarmed', 'cell:load/CHECKSUM/armed', 'cell:load/CHECKSUM/unarmed', 'cell:load/UNSUPPORTED/armed', 'cell:load/UNSUPPORTED/unarmed', 'cell:decode/OK/armed', 'cell:decode/OK/unarmed', 'cell:decode/NUM_WORDS/armed', 'cell:decode/NUM_WORDS/unarmed', 'cell:decode/LANG/armed', 'cell:decode/LANG/unarmed', 'cell:decode/MULT_LANG/armed', 'cell:decode/MULT_LANG/unarmed', 'cell:decode/CHECKSUM/armed', 'cell:decode/CHECKSUM/unarmed', 'cell:decode/UNSUPPORTED/armed', 'cell:decode/UNSUPPORTED/unarmed', 'cell:decode_explicit/OK/armed', 'cell:decode_explicit/OK/unarmed', 'cell:decode_explicit/NUM_WORDS/armed', 'cell:decode_explicit/NUM_WORDS/unarmed', 'cell:decode_explicit/LANG/armed', 'cell:decode_explicit/LANG/unarmed', 'cell:decode_explicit/CHECKSUM/armed', 'cell:decode_explicit/CHECKSUM/unarmed', 'cell:decode_explicit/UNSUPPORTED/armed', 'cell:decode_explicit/UNSUPPORTED/unarmed'] + ['seq:allocation-failure-observed', 'create:MEMORY', 'load:MEMORY', 'decode:MEMORY', 'decode_explicit:MEMORY']},
@@ -229,15 +230,16 @@ prop('C19', src='props/c19_signedness.cpp',
      plan={'quick': [{'variant': 'sc', 'workers': 16}], 'thorough': [{'variant': 'sc', 'workers': 16}]},
      extra_libs={'sc': ['uc']},
      rule='rapidcheck scripts executed in one process against the gcc -fsigned-char objects and the gcc -funsigned-char objects (every global symbol renamed u_* by objcopy), each with its own dependency kit: create; encode in a generated language (non-Latin and accented languages weighted); decode and decode_explicit (two languages, right and wrong coin) of 16 inputs derived from the phrase - as encoded, decomposed, composed with ASCII / ideographic spaces, accents dropped, abbreviated to 4 letters with and without accents, abbreviated and recomposed, an extra combining accent, a stray high byte, swapped words, a foreign accented word, 15 words with NBSP - and a raw byte string; crypt with non-ASCII passwords; keygen; getters; store/load. '
+          'One case in five injects, in both builds, a normaliser that copies its input instead of normalising (U+3000, NBSP and composed letters then reach the splitter and the word comparison as typed; the oracle is differential, so any deterministic dependency set is sound). '
           'Oracle (differential): the transcripts - statuses, phrases, store images, detected language names, full KDF argument logs, derived keys - are identical. Non-trivial = the script contains a non-ASCII byte in a phrase or password; distinct = case fingerprint.',
-     required_classes={'any': ['decode-status:OK', 'decode-status:LANG', 'decode-status:CHECKSUM', 'decode-status:NUM_WORDS', 'lang:Spanish', 'lang:French', 'lang:Japanese', 'lang:Korean', 'lang:Chinese (Simplified)']},
+     required_classes={'any': ['decode-status:OK', 'decode-status:LANG', 'decode-status:CHECKSUM', 'decode-status:NUM_WORDS', 'lang:Spanish', 'lang:French', 'lang:Japanese', 'lang:Korean', 'lang:Chinese (Simplified)', 'normaliser:copies-its-input']},
      assumptions=['both signedness settings are produced with gcc on x86-64 (-fsigned-char / -funsigned-char); other ABIs where char is unsigned (ARM, PowerPC) are represented by the flag only'],
      technique='property-based differential testing (rapidcheck): identical generated scripts run against -fsigned-char and -funsigned-char builds linked into one process (objcopy symbol renaming), transcripts compared',
      level_text='Every generated script is executed against both builds and all observable results are compared; inputs concentrate on non-ASCII phrases and passwords in composed, decomposed, abbreviated and unaccented forms. Exploration.')
 
 prop('C20', src='props/c20_threads.cpp', engine='rapidcheck + ThreadSanitizer', report_unreproduced=True,
      plan={'quick': [{'variant': 'tsan', 'workers': 12, 'cap_to_cores': True}], 'thorough': [{'variant': 'tsan', 'workers': 16, 'timeout': 14400}]},
-     rule='rapidcheck thread scripts on a ThreadSanitizer build (clang -fsanitize=thread, halt_on_error): N in {2,4,8,16} threads start together and each runs its own generated operation sequence (create, load, decode, decode_explicit, crypt, encode, store, keygen, queries, free, allocation-failure arming; 10-50 operations) on its own seed objects; dependencies are injected and features enabled once before the threads start; the lock-free thread_local stubs yield (sched_yield or a short spin, per case) at every dependency call. '
+     rule='rapidcheck thread scripts on a ThreadSanitizer build (clang -fsanitize=thread, halt_on_error): N in {2,4,8,16} threads start together and each runs its own generated operation sequence (create, load, decode, decode_explicit, crypt, encode, store, keygen, queries, free, allocation-failure arming; 10-50 operations) on its own seed objects; dependencies are injected and features enabled once before the threads start; the lock-free thread_local stubs yield (sched_yield or a short spin, per case) at every dependency call; output variables are pre-set as in C13 (lang_out to each registered language). '
           'Oracle: no ThreadSanitizer report; every thread\'s transcript (status counters, store image of each of its seeds after every step, last KDF arguments) equals the transcript of the same script executed alone afterwards. Non-trivial = at least two threads were in flight at the same time (relaxed atomic counter); distinct = fingerprint of the scripts.',
      required_classes={'any': ['overlapping(>=2 threads in flight)', 'threads:2', 'threads:8', 'threads:16', 'allocator:libc-default', 'allocator:injected', 'cold-start-under-contention']},
      assumptions=['ThreadSanitizer happens-before analysis over sampled schedules: no liveness guarantee, and a race needing an access pair the scripts never produce is missed', 'a TSan report is reported even if a replay of the same scripts does not reproduce it (schedules cannot be pinned)'],
